@@ -911,8 +911,11 @@ static void run_batch(batch *b, int loglevel) {
 	int bad = probe(b, 0, b->count, loglevel, -1, &leaked), ep, found = 0;
 	vbuf in;
 	if (!bad) return;
+	{
 	/* attribution, per entry point: the whole batch through that entry point only on a fresh context, then
-	 * bisection to the first item that reproduces the problem alone */
+	 * bisection to the first item that reproduces the problem alone (not counted in the statistics) */
+	long keep_calls = st_calls, keep_follow = st_follow;
+	uint64_t keep_hash = st_hash;
 	g_quiet = 1;
 	vb_init(&in);
 	for (ep = 0; ep < EP_N; ep++) {
@@ -935,9 +938,11 @@ static void run_batch(batch *b, int loglevel) {
 		g_quiet = 1;
 	}
 	g_quiet = 0;
+	st_calls = keep_calls; st_follow = keep_follow; st_hash = keep_hash;
 	vb_free(&in);
 	if ((bad & 1) && !(found & 1)) fail("leak:batch", "%ld SDK block(s) still allocated after the batch of %ld items (log level %s); not reproduced by a single item", leaked, b->count, loglevel ? "debug" : "none");
 	if ((bad & 2) && !(found & 2)) fail("ctx-damaged", "sentinel result changed during the batch of %ld items; not reproduced by a single item", b->count);
+	}
 }
 
 /* ------------------------------------------------------------------ seeds */
